@@ -23,11 +23,20 @@ def main():
     assert os.path.exists(diff) and os.path.exists(demo), "deliverables missing"
     py = "/venv/bin/python"
     sh("git checkout -- xknx", wt)
+    head = subprocess.run(["git", "-C", "/repo", "rev-parse", "HEAD"], capture_output=True, text=True).stdout.strip()
+    sh(f"git checkout -q --detach {head}", wt)  # confirm against the current /repo HEAD (fix commits may have landed since the seed was written)
     demo_cmd = f"{py} -m pytest -q -p no:cacheprovider demo{k}.py" if "def test_" in open(demo).read() else f"{py} demo{k}.py"
     rc_clean, out_clean = sh(demo_cmd, wt)
     rc, out = sh(f"git apply --whitespace=nowarn variant{k}.diff", wt)
     if rc != 0:
-        print("APPLY FAILED", out); return 1
+        rc, out = sh(f"git apply -3 --whitespace=nowarn variant{k}.diff", wt)
+        if rc != 0:
+            print("APPLY FAILED", out); return 1
+        sh("git reset -q", wt)
+        print("(patch rebased onto the current HEAD with a 3-way apply)")
+    rc, eff = sh("git diff HEAD -- xknx", wt)
+    diff = f"{wt}/variant{k}.effective.diff"
+    open(diff, "w").write(eff)
     rc_mut, out_mut = sh(demo_cmd, wt)
     rc_suite, out_suite = sh(f"{py} -m pytest -q -p no:cacheprovider --timeout=900 -x --deselect test/io_tests/knxip_interface_test.py::TestKNXIPInterface::test_start_automatic_connection --deselect test/io_tests/secure_session_test.py::TestSecureSession::test_lifecycle", wt)
     suite_tail = out_suite.strip().splitlines()[-1] if out_suite.strip() else ""
